@@ -35,6 +35,7 @@ CONSTANTS
     Deposit,    \* Rat                initial cash
     Rate,       \* Rat                reference rate (constant per behaviour)
     Markup,     \* Rat                broker markup
+    Epsilon,    \* Rat                positions smaller than this in absolute value are zeroed after a trade (0: never)
     RefRule,    \* "exec_only" (pinned code) | "carry" (the property)
     SpotMult,   \* "omitted"   (pinned code) | "applied" (the property)
     SubLot      \* "raise"     (pinned code) | "skip" (the property)
@@ -129,13 +130,16 @@ TransactF(st, c, dq) ==
     LET s1     == MarkF(st, c)
         exec   == AcqPrice(s1, c, Sign(dq))
         old    == s1.pos[c]
-        new    == Add(old, dq)
+        raw    == Add(old, dq)
+        \* Broker._epsilon: a residual position below epsilon is dropped (the margin is still sized on the raw
+        \* quantity first and swept by the re-mark below)
+        new    == IF Lt(RAbs(raw), Epsilon) THEN Zero ELSE raw
         comm   == Commission(c, exec, dq)
         \* the whole position is re-based to the execution price below; under "carry" the variation
         \* margin of the position held so far is settled from its last mark to the execution price
         carry  == IF RefRule = "carry" /\ ~IsZero(Mr[c]) /\ ~IsZero(old) /\ s1.ref[c] # None
                   THEN Mul(Mul(old, RM(Mult[c])), Sub(exec, s1.ref[c])) ELSE Zero
-        mexp   == Mul(Mul(Mul(exec, RAbs(new)), RM(Mult[c])), Mr[c])
+        mexp   == Mul(Mul(Mul(exec, RAbs(raw)), RM(Mult[c])), Mr[c])
         mdiff  == Sub(mexp, Add(s1.mrg[c], carry))
         cost   == Mul(Mul(Mul(exec, dq), RM(Mult[c])), RM(CashReq[c]))
         s2     == [s1 EXCEPT !.cash   = Sub(Sub(Sub(s1.cash, comm), cost), mdiff),
